@@ -387,6 +387,86 @@ def check(run):
     run.notes.append("after rollback sweep: %.1f s" % (time.time() - t_start))
     run.sample({"rollback_case": rcases[0]["model"], "model": rout[0] if rout else None})
 
+    # ------------------------------------------------------------------ 3a. validation decision per kind (tie of *_validate)
+    vd_cases, vd_lines = [], []
+    for ei, (kind, args, render, sc0, li0, fl0, only) in enumerate(T.VALIDATE):
+        variants_kw = []
+        if only is None or "s" in only:
+            for kw in sc0:
+                for v in T.VALIDATE_VALUES:
+                    variants_kw.append(("s", kw, v))
+        if only is None or "l" in only:
+            for kw in li0:
+                for v in T.VECTOR_VALUES + ["-", "3 0", "0 3", "3 3"]:
+                    variants_kw.append(("l", kw, v))
+        for kw in fl0:
+            for v in ("on", "off"):
+                variants_kw.append(("f", kw, v))
+        variants_kw.append(("base", "", ""))
+        if quick:
+            # the values at which the guards decide (0, -1, keyword absent) always; a random dozen of the others
+            must = [t for t in variants_kw if t[0] == "base" or t[0] == "f" or (t[0] == "s" and t[2] in ("0", "-1", "-")) or (t[0] == "l" and t[2] in ("-", "1", ""))]
+            rest = [t for t in variants_kw if t not in must]
+            r.shuffle(rest)
+            variants_kw = must + rest[:10]
+        for typ, kw, v in variants_kw:
+            sc_, li_, fl_ = dict(sc0), dict(li0), dict(fl0)
+            if typ == "s" and kind == "walls" and kw == "forceConstant" and v == "1e-300":
+                run.dist("validate:boundary-ambiguous")
+                continue          # the product of the two constants underflows to 0 in binary64, not in the exact model
+            if typ == "s" and v == "-" and kind == "opesx" and kw in ("epsilon", "kernelCutoff"):
+                continue          # their defaults are exp()/sqrt() of the other parameters: not modelled
+            if typ == "s":
+                if v == "-":
+                    sc_.pop(kw)
+                else:
+                    sc_[kw] = v
+            elif typ == "l":
+                if v == "-":
+                    li_.pop(kw)
+                else:
+                    li_[kw] = v.split()
+            elif typ == "f":
+                fl_[kw] = v
+            conf = render(sc_, li_, fl_)
+            line = "validate kind=%s %s %s %s %s" % (kind, " ".join("%s=%s" % kv for kv in args.items()),
+                                                     " ".join("s:%s=%s" % kv for kv in sc_.items()),
+                                                     " ".join("l:%s=%s" % (k_, ",".join(v_)) for k_, v_ in li_.items()),
+                                                     " ".join("f:%s=%s" % kv for kv in fl_.items()))
+            vd_cases.append((kind, ei, typ, kw, v, conf))
+            vd_lines.append(line)
+    vd_lines = [(l.replace("bfinf=0", "bfinf=1") if re.search(r"s:biasfactor=(inf|INF)( |$)", l) else l) for l in vd_lines]
+    rc, vdout, vderr = V.run_lines(model, vd_lines)
+    vdjobs = []
+    for k, c in enumerate(vd_cases):
+        sc = T.scenario(c[5], 3, nsteps=4)
+        for var in variants:
+            if var == "asan" and quick and k % 6 != run.seed % 6:
+                continue
+            vdjobs.append(((k, var), plain if var == "plain" else asan, sc, os.path.join(W, "vd", var, str(k)), var, 20 if var == "plain" else 60))
+    vdres = L.run_many(vdjobs)
+    for (k, var), rr in sorted(vdres.items()):
+        kind, ei, typ, kw, v, conf = vd_cases[k]
+        mo = vdout[k] if k < len(vdout) else "<none>"
+        lc = last_config(rr)
+        impl = rr["cls"] if rr["cls"] != "ok" else (lc[0] if lc else "?")
+        run.count(("validate", kind, kw, value_class(v) if typ == "s" else v, var), impl != "ok")
+        run.dist("validate:%s:%s" % (kind, "accept" if impl == "ok" else "reject" if rr["cls"] == "ok" else "died"))
+        if rr.get("skipped"):
+            continue
+        sc = T.scenario(conf, 3, nsteps=4)
+        if rr["cls"] != "ok":
+            report_death(kind, kw or "base", v or "base", var, rr, sc, " (model: %s)" % mo)
+            run.mismatch("validate:%s.%s" % (kind, kw or "base"), "%s = %s (%s)" % (kw, v, var), rr["cls"], mo)
+            continue
+        if impl != "ok":
+            check_survivors(kind, kw, v, var, rr, sc)
+        if impl != mo:
+            run.mismatch("validate:%s.%s" % (kind, kw or "base"), "%s %s = %s (%s)" % (kind, kw, v, var), impl, mo)
+    if os.environ.get("C10_DUMP"):
+        json.dump(getattr(run, "mismatches", {}), open(os.environ["C10_DUMP"], "w"), indent=1)
+    run.sample({"validate_case": vd_lines[0], "model": vdout[0] if vdout else None})
+
     # ------------------------------------------------------------------ 3a'. sessions: a rejected configuration, then a valid one
     # (module-level residue: the harmonicWalls block queued by the legacy lowerWall/upperWall keywords of a variable)
     sess = [gen_session(r, k) for k in range(16 if quick else 120)]
